@@ -20,6 +20,7 @@ POOL = [
     str(I64_MAX), str(I64_MIN), "0", "-1", "1.5", '""', '"hé✓🙂"', "[]", "[[1], [2, 3]]", '(1, "a")',
     'Dict["a" => 1]', "None", "Some(1)", "fun(x) { x }", "Unit", 'Path{ p: "rel.gdn" }',
 ]
+INDEXB = [-1, 0, 1, 2, 3, 4, 5, 8, 28, I64_MAX]
 BOUNDARY = [I64_MIN, I64_MIN + 1, -2, -1, 0, 1, 2, 3, 63, 64, 4294967296, I64_MAX - 1, I64_MAX]
 
 ALIASES = {"__fs.gdn": "fs", "__shell.gdn": "shell", "__reflect.gdn": "reflect", "__random.gdn": "random",
@@ -108,6 +109,24 @@ def call_exprs(arm, rng, scratch, per_arm):
     tuples = [t for t in tuples
               if not (arm["name"] == "ShellRun" and t and t[0].startswith('"') and t[0] != '""')]   # never spawn a command
     good = receivers[0]
+    # index boundaries: every Int parameter ranges over values below / at / just past / far past the length
+    # of the well-typed receivers (all of length 3), jointly (seeded C02-1: `"abcde".substring(8, 28)` only
+    # misbehaved with from > len and from <= to, which single-position sweeps never produce)
+    int_pos = [j for j, ty in enumerate(arm["params"][:declared]) if ty == "Int"]
+    g0 = []
+    if int_pos and len(int_pos) <= 3:
+        base = [typed[j][0] for j in range(declared)]
+        recvs0 = [r for r in (typed_values(arm["receiverType"], scratch) + ['"hé✓🙂"', '""', "[]"]
+                              if arm["isMethod"] else [None])]
+        for combo in itertools.product([str(v) for v in INDEXB], repeat=len(int_pos)):
+            t = list(base)
+            for j, v in zip(int_pos, combo):
+                t[j] = v
+            for r in recvs0:
+                g0.append(mk(r, t))
+        g0 = dedup(g0)
+        if len(g0) > 400:
+            g0 = rng.sample(g0, 400)
     g1 = dedup(mk(good, t) for t in tuples[:len(prio)])            # well-typed receiver, well-typed tuples
     g2 = dedup(mk(good, t) for t in tuples[len(prio):])            # well-typed receiver, swept / random tuples
     g3 = dedup(mk(rng.choice(receivers), t) for t in tuples) if arm["isMethod"] else []   # any receiver
@@ -117,7 +136,7 @@ def call_exprs(arm, rng, scratch, per_arm):
         g2 = rng.sample(g2, per_arm)
     if len(g3) > per_arm // 3:
         g3 = rng.sample(g3, per_arm // 3)
-    return g1[:60] + g2 + g3
+    return g1[:60] + [c for c in g0 if c not in set(g1)] + g2 + g3
 
 
 def make_scratch(d):
